@@ -5,6 +5,8 @@ import Gmars.Model.Listing
 import Gmars.Proofs.CliList
 import Gmars.Spec.LoadText
 import Gmars.Proofs.RoundTrip
+import Gmars.Proofs.ListingP
+import Gmars.Proofs.InstrString
 
 namespace Gmars.Props.C16
 open Gmars
@@ -67,5 +69,48 @@ theorem cli_A_roundtrip {fl : Flags} {files : List (List UInt8)} {out : String}
       ∀ w ∈ ws, ∃ t, Spec.readText (listingOf cfg w) = some t ∧
         Spec.denotes cfg.coreSize.toNat t w.code.toList w.start = true :=
   Cli.cli_A_roundtrip h
+
+/-- `pmars_listing_roundtrip` — the second listing printer, `LoadCodePMARS()`: its text is the
+    header line `Program "<name>" (length <n>) by "<author>"`, an empty line, the `LoadCode()`
+    listing and one more newline (`ListingP.pmars_body`); with the header removed it reads back,
+    by the same pMARS conventions, to exactly the warrior it was printed from — for every name
+    and author, every core size, both dialects. -/
+theorem pmars_listing_roundtrip (m : UInt64) (legacy : Bool) (name author : GoStr.Str) (w : WarriorData)
+    (hs : 0 ≤ w.start) (hlt : w.start < w.code.size)
+    (hl : legacy = true → ∀ i ∈ w.code.toList, Spec.Legal88 i = true) :
+    ∃ t, Spec.readText ((loadCodePMARS m legacy name author w).drop
+        (pmarsHeader name author w.code.size).length) = some t ∧
+      Spec.denotes m.toNat t w.code.toList w.start = true :=
+  ListingP.pmars_listing_roundtrip m legacy name author w hs hlt hl
+
+/-- an empty warrior prints the header only -/
+theorem pmars_empty (m : UInt64) (legacy : Bool) (name author : GoStr.Str) (w : WarriorData)
+    (h : w.code.size = 0) :
+    loadCodePMARS m legacy name author w = pmarsHeader name author w.code.size :=
+  ListingP.pmars_empty m legacy name author w h
+
+/-- Go's wrapping `int` arithmetic in `signedAddress` is the exact integer formula for every field
+    inside the core, for every core size up to 2^64 - 1 -/
+theorem signedAddressGo_exact (m a : UInt64) (ha : a < m) : signedAddressGo a m = addressSigned m a :=
+  ListingP.signedAddressGo_eq m a ha
+
+/-- the one-line renderings identify the instruction: `Instruction.String()` always … -/
+theorem instrString_injective (i j : Instr) (h : instrString i = instrString j) : i = j :=
+  InstrString.instrString_injective i j h
+
+/-- … and `NormString(m)` for instructions whose fields lie inside the core (opcode, modifier,
+    both modes and both fields can be read off the line a debug reporter prints) -/
+theorem normString_injective (m : UInt64) (i j : Instr) (hi : i.a < m ∧ i.b < m)
+    (hj : j.a < m ∧ j.b < m) (h : normString m i = normString m j) : i = j :=
+  InstrString.normString_injective m i j hi hj h
+
+/-- the hypothesis is tight: a field outside the core can print like one inside it
+    (13 > 10/2 prints -(10 - 13) = 3) -/
+theorem normString_collides_outside_core :
+    normString 10 { (default : Instr) with a := 3 } = normString 10 { (default : Instr) with a := 13 } ∧
+    ({ (default : Instr) with a := 3 } : Instr) ≠ { (default : Instr) with a := 13 } := by
+  constructor
+  · decide
+  · decide
 
 end Gmars.Props.C16
